@@ -188,6 +188,13 @@ def cases(c):
             for fn in ('music', 'ev'):
                 out.append({'form': 'function', 'fn': fn, 'cplx': cplx, 'N': N, 'kind': 'tones', 'snr_db': snr, 'j': j,
                             'c': [cc, 0.0], 'p': {'P': P, 'select': sel, 'NSIG': 2, 'NFFT': 128}, 'directed': j < 2})
+    # subspace selection by threshold on small-amplitude records (a threshold compares singular-value *ratios*)
+    for j, (N, P, cplx, amp) in enumerate([(64, 8, 1, 1e-6), (48, 6, 0, 1e-6), (80, 10, 1, 1e-7), (40, 5, 0, 1e-5)]):
+        for fn in ('music', 'ev'):
+            out.append({'form': 'function', 'fn': fn, 'cplx': cplx, 'N': N, 'kind': 'tones', 'snr_db': 30.0, 'j': j, 'amp': amp,
+                        'c': [1e-3, 0.0], 'p': {'P': P, 'select': 'threshold', 'NSIG': 2, 'NFFT': 64}, 'directed': True})
+            out.append({'form': 'class', 'cls': 'p' + fn, 'cplx': cplx, 'N': N, 'kind': 'tones', 'snr_db': 30.0, 'j': j, 'amp': amp,
+                        'c': [1e-3, 0.0], 'p': {'P': P, 'threshold': 1.5}, 'NFFT': 64, 'fs': 1.0, 'reuse': None, 'directed': True})
     # low-power records through the adaptive multitaper (its stop rule must scale with the record power):
     # amplitude 0.1, c = 1e-3, default and long NFFT
     for j, (N, NFFT, cplx) in enumerate([(32, None, 0), (48, 1024, 1), (64, 1024, 0), (40, None, 1), (24, 512, 0), (72, 2048, 1)]):
